@@ -443,17 +443,60 @@ def main():
             else:
                 undecided.append(f"{oid}: {detail}")
             continue
-        path = os.path.join(REPO, co["file"])
-        try:
-            txt = open(path).read()
-            okc = re.search(co["must_match"], txt, re.M) is not None
-        except Exception:
-            txt = ""
-            okc = False
-        rec = {"id": oid, "kind": "config", "source": co["file"], "backend": "regex on the build file", "status": "discharged" if okc else "FAILED", "solver_ms": 0, "rlimit": None}
+        if co.get("kind") == "serde_attrs":
+            # wire types are assumed to round-trip as plain derives: a skipped field without a default cannot decode back
+            # (definite); any other serde attribute only means the assumption is no longer covered (undecided)
+            bad, other = [], []
+            files = sorted(glob.glob(os.path.join(REPO, co["files_glob"]), recursive=True))
+            for fp in files:
+                try:
+                    lines_ = open(fp).read().split("\n")
+                except Exception:
+                    continue
+                for ln_no, ln in enumerate(lines_, 1):
+                    if "#[serde(" not in ln:
+                        continue
+                    ctx = " ".join(lines_[max(0, ln_no - 3):ln_no + 2])
+                    where = f"{os.path.relpath(fp, REPO)}:{ln_no}: {ln.strip()[:100]}"
+                    if re.search(r"\bskip(_serializing_if|_serializing|_deserializing)?\b", ln) and not re.search(r"#\[serde\([^\]]*\bdefault\b", ctx):
+                        bad.append(where)
+                    else:
+                        other.append(where)
+            okc = bool(files) and not bad and not other
+            co = dict(co, file=co["files_glob"], must_match="no #[serde(..)] attribute on the wire types")
+            if bad:
+                co["why"] = "a field of a wire type is skipped on the wire and has no default, so a value carrying it does not decode back to itself: " + "; ".join(bad[:3])
+            elif other:
+                co["why"] = co["why"] + "; found: " + "; ".join(other[:3])
+                co["on_hit"] = "undecided"
+        elif co.get("must_not_match"):
+            # a pattern that must not occur in any of the globbed source files (precondition of an assumption)
+            hits = []
+            files = sorted(glob.glob(os.path.join(REPO, co["files_glob"]), recursive=True))
+            for fp in files:
+                try:
+                    for ln_no, ln in enumerate(open(fp).read().split("\n"), 1):
+                        if re.search(co["must_not_match"], ln):
+                            hits.append(f"{os.path.relpath(fp, REPO)}:{ln_no}: {ln.strip()[:100]}")
+                except Exception:
+                    pass
+            okc = bool(files) and not hits
+            co = dict(co, file=co["files_glob"], must_match="must not match: " + co["must_not_match"], why=co["why"] + ("; found: " + "; ".join(hits[:3]) if hits else ""))
+        else:
+            path = os.path.join(REPO, co["file"])
+            try:
+                txt = open(path).read()
+                okc = re.search(co["must_match"], txt, re.M) is not None
+            except Exception:
+                txt = ""
+                okc = False
+        rec = {"id": oid, "kind": "config", "source": co["file"], "backend": "regex on the source / build files", "status": "discharged" if okc else "FAILED", "solver_ms": 0, "rlimit": None}
         fn_records.append(rec)
         if okc:
             discharged.append(oid)
+        elif co.get("on_hit") == "undecided":
+            rec["status"] = "undecided"
+            undecided.append(f"{oid}: {co['why'][:300]}")
         else:
             violations.append((oid, [{"msg": "configuration obligation not met: " + co["why"], "at": co["file"], "clause": co["must_match"], "line": None, "src_line": None, "rendered": co["why"]}], None))
 
